@@ -374,6 +374,14 @@ class Weaver:
         for h in spec.get("hint", []):
             if h.get("at") == "entry":
                 ed.insert(it["body_open"] + 1, "\n" + h["text"] + "\n", "W5")
+            elif h.get("at") == "tail":
+                # W5 tail hint: the body's tail expression E becomes `{ let kvx_ret = E; <hint>; kvx_ret }` so that a proof block can
+                # speak about the value being returned and the final state
+                if "tail_expr" not in it:
+                    raise Undecided(f"W5 tail hint: {spec['path']} has no tail expression")
+                ts, te = it["tail_expr"]
+                ed.insert(ts, "{ let kvx_ret = ", "W5")
+                ed.insert(te, ";\n" + h["text"] + "\nkvx_ret }", "W5")
         # W2: loops
         loops = it.get("loops", [])
         for ls in spec.get("loop", []):
@@ -425,7 +433,7 @@ class Weaver:
         for p in spec.get("patch", []):
             text = apply_patch(text, p, fired, spec["path"])
         for h in spec.get("hint", []):
-            if h.get("at") == "entry":
+            if h.get("at") in ("entry", "tail"):
                 continue
             anchor = h.get("after") or h.get("before")
             occ = h.get("occurrence")
